@@ -45,7 +45,7 @@ def random_runs(schema, rnd, tier):
 
 
 def plans():
-    obs = metagen.battery(['sel'], per_step=2)
+    obs = metagen.battery(['sel'], per_step=2, dup_eq=True)
     return [
         {'name': 'spelling', 'schema': 'spelling', 'spec': 'SpecVal', 'alpha': {'new', 'set', 'del', 'link', 'delete'},
          'vals': VALS, 'bound': {'quick': {'Lk': 1, 'Kx': 1}, 'thorough': {'Lk': 2, 'Kx': 1}},
